@@ -11,6 +11,7 @@ import (
 	"runtime"
 	"runtime/debug"
 	"sync"
+	"sync/atomic"
 	"time"
 
 	"golang.org/x/crypto/ssh"
@@ -48,6 +49,9 @@ type result struct {
 	events    []wire.Event
 }
 
+// upstreamHangsUp: the underlying agent reads a relayed request and closes the connection instead of answering.
+var upstreamHangsUp atomic.Bool
+
 // serve runs one stream through a fresh server.
 func serve(stream []byte, frag bool, pokeCodes []byte, r *ev.Run, abrupt ...bool) *result {
 	res := &result{}
@@ -67,6 +71,9 @@ func serve(stream []byte, frag bool, pokeCodes []byte, r *ev.Run, abrupt ...bool
 		switch req[0] {
 		case 1, 11, 13, 17, 18, 19, 22, 23, 25, 27:
 			return wire.Action{Kind: wire.Honest}
+		}
+		if upstreamHangsUp.Load() {
+			return wire.Action{Kind: wire.Close}
 		}
 		h := 0
 		for _, b := range req {
@@ -632,6 +639,36 @@ func main() {
 		}
 		close(jobs)
 		wg.Wait()
+		// the underlying agent hangs up on a relayed request: the frame cannot be answered from there, so it is either
+		// answered with a failure or service ends with an error — never neither
+		upstreamHangsUp.Store(true)
+		for ci, code := range []byte{27, 200, 20, 36, 255} {
+			for _, more := range []bool{false, true} {
+				c := r.Case("upstream-hangs-up", ci*2+map[bool]int{false: 0, true: 1}[more])
+				if c == nil {
+					continue
+				}
+				stream := wire.Frame(append([]byte{code}, []byte("relayed body")...))
+				if more {
+					stream = append(stream, wire.Frame([]byte{11})...)
+				}
+				r.Eval(1)
+				res := serve(stream, false, nil, r)
+				rec := map[string]any{"relayed_code": code, "followed_by_list": more, "stream_hex": hex.EncodeToString(stream)}
+				switch {
+				case res.panicked != "":
+					r.Violation(c, "panic:ServeAgent:upstream-hangs-up", res.panicked, rec)
+				case res.hung:
+					r.Violation(c, "serving-never-ends:upstream-hangs-up", "", rec)
+				case res.err == nil && len(res.responses) == 0:
+					r.Violation(c, "relayed-request-neither-answered-nor-refused", fmt.Sprintf("the underlying agent closed the connection on the relayed request (code %d); ServeAgent wrote no response and returned nil", code), rec)
+				default:
+					r.Count("relayed requests on which the underlying agent hung up: answered or ended with an error", 1)
+					r.Nontrivial(fmt.Sprintf("upstream-hangs-up:%d:%v", code, more))
+				}
+			}
+		}
+		upstreamHangsUp.Store(false)
 		allocation(r)
 		r.Floor(int64(r.Pick(3000, 50000)), int64(r.Pick(1500, 20000)))
 	})
